@@ -223,3 +223,304 @@ Proof.
   unfold lslice. rewrite skipn_app_length, app_length.
   replace (length X + length Y - length X)%nat with (length Y) by lia. apply firstn_all.
 Qed.
+
+Lemma pairs_nth_inv {A} (l : list A) : forall k a b, nth_error (pairs l) k = Some (a, b) ->
+  nth_error l k = Some a /\ nth_error l (S k) = Some b.
+Proof.
+  induction l as [|x l IH]; intros k a b H; [destruct k; discriminate|].
+  destruct l as [|y l]; [destruct k; discriminate|].
+  change (pairs (x :: y :: l)) with ((x, y) :: pairs (y :: l)) in H.
+  destruct k as [|k]; simpl in H.
+  - inversion H; subst. split; reflexivity.
+  - apply IH in H. exact H.
+Qed.
+
+Lemma lslice_head {A} (X Y : list A) c1 j h r : lslice (length X) j (X ++ c1 :: Y) = h :: r -> h = c1.
+Proof.
+  unfold lslice. rewrite skipn_app_length. destruct (j - length X)%nat; simpl; [discriminate|].
+  intros H. inversion H. reflexivity.
+Qed.
+
+Lemma asc_nth l : forall k a b, asc l -> nth_error l k = Some a -> nth_error l (S k) = Some b -> a <= b.
+Proof.
+  induction l as [|x l IH]; intros k a b H Ha Hb; [destruct k; discriminate|].
+  destruct H as [H1 H2]. destruct k as [|k]; simpl in *.
+  - inversion Ha; subst. apply H1. apply nth_error_In with 0%nat. exact Hb.
+  - apply (IH k); assumption.
+Qed.
+
+(* ================================================================ 5. sampling all split times *)
+Lemma sample_at_nonneg (e : envR) t ap e' : sample_at R RNum e t ap = Ok e' -> 0 <= t.
+Proof.
+  intros H. assert (Ne : e <> []) by (intros ->; discriminate).
+  rewrite sample_at_body in H by exact Ne. unfold sample_body, check_time in H.
+  destruct (Z.ltb_spec t 0); [discriminate|lia].
+Qed.
+
+Lemma sample_all_spec : forall sl (e e1 : envR), pwf e -> sample_all R RNum e sl = Ok e1 ->
+  pwf e1 /\ (forall x, curve e1 x = curve e x) /\
+  (forall t, In t sl -> In t (pstarts R e1) /\ 0 <= t) /\
+  (forall s, nojump e s -> nojump e1 s) /\
+  (forall z, In z (pstarts R e) -> In z (pstarts R e1)).
+Proof.
+  induction sl as [|t sl IH]; intros e e1 W H.
+  - simpl in H. inversion H; subst. split; [exact W|]. split; [reflexivity|]. split; [intros t' []|]. split; auto.
+  - cbn [sample_all] in H. destruct (sample_at R RNum e t 0) as [e'|] eqn:E; [|discriminate].
+    cbn [bind] in H. pose proof (sample_samp e t 0 e' W ltac:(lia) E) as S.
+    pose proof (samp_pwf _ _ _ W S) as W'.
+    destruct (IH e' e1 W' H) as (P1 & P2 & P3 & P4 & P5).
+    split; [exact P1|]. split; [intros x; rewrite P2; apply (samp_curve _ _ _ S)|].
+    split; [|split].
+    + intros t' [Ht|Ht]; [subst t'|apply P3; exact Ht].
+      split; [apply P5, (samp_in _ _ _ S)|apply (sample_at_nonneg _ _ _ _ E)].
+    + intros s J. apply P4. apply (samp_nojump _ _ _ _ W S J).
+    + intros z Hz. apply P5. apply (samp_starts_mono _ _ _ _ S Hz).
+Qed.
+
+(* ================================================================ 6. the parts *)
+Lemma first_point (e1 : envR) c : pwf e1 -> In c (pstarts R e1) ->
+  exists A c1 C1', e1 = A ++ c1 :: C1' /\ fidx c (pstarts R e1) = length A /\ pdur R A = c /\
+    fv 0 e1 c = Some (pv c1) /\ Forall (fun z => z < c) (pstarts_from R 0 A).
+Proof.
+  intros W I. destruct (split_at_start c e1 0 W I) as (A & R0 & E & Rn & Ed & Es). subst e1.
+  destruct R0 as [|c1 C1']; [congruence|]. rewrite Z.add_0_l in Ed.
+  exists A, c1, C1'. repeat split; try assumption.
+  - unfold fidx, pstarts. rewrite pstarts_from_app. cbn [pstarts_from].
+    rewrite index_of_first'; [apply pstarts_from_length|lia|apply notin_lt; exact Es].
+  - apply fv_first; [apply notin_lt; exact Es|exact Ed].
+Qed.
+
+Lemma part_mid (e1 : envR) c c' : pwf e1 -> 0 <= c -> c < c' ->
+  In c (pstarts R e1) -> In c' (pstarts R e1) ->
+  exists A b B1 c1 C1', e1 = A ++ (b :: B1) ++ c1 :: C1' /\
+    fidx c (pstarts R e1) = length A /\ fidx c' (pstarts R e1) = length (A ++ b :: B1) /\
+    pdur R A = c /\ pdur R (b :: B1) = c' - c /\
+    fv 0 e1 c = Some (pv b) /\ fv 0 e1 c' = Some (pv c1).
+Proof.
+  intros W H0 H1 Ic Ic'.
+  destruct (cut_off_shape e1 c c' W H0 H1 Ic Ic') as (A & B1 & C1 & E & EA & SA & EB & SB & NB & NC).
+  subst e1. destruct B1 as [|b B1]; [congruence|]. destruct C1 as [|c1 C1']; [congruence|].
+  exists A, b, B1, c1, C1'.
+  assert (N1 : ~ In c (pstarts_from R 0 A)) by (apply notin_lt; exact SA).
+  assert (N2 : ~ In c' (pstarts_from R 0 (A ++ b :: B1))).
+  { rewrite pstarts_from_app. intros N. apply in_app_or in N. destruct N as [N|N].
+    - rewrite Forall_forall in SA. apply SA in N. lia.
+    - rewrite Z.add_0_l, EA in N. rewrite Forall_forall in SB. apply SB in N. lia. }
+  assert (D2 : pdur R (A ++ b :: B1) = c') by (rewrite pdur_app; lia).
+  repeat split; try assumption; try lia.
+  - unfold fidx, pstarts. rewrite pstarts_from_app. cbn [app pstarts_from].
+    rewrite index_of_first'; [apply pstarts_from_length|lia|exact N1].
+  - unfold fidx, pstarts. rewrite app_assoc. rewrite pstarts_from_app. cbn [pstarts_from].
+    rewrite index_of_first'; [apply pstarts_from_length|lia|exact N2].
+  - cbn [app]. apply fv_first; [exact N1|exact EA].
+  - rewrite app_assoc. apply fv_first; [exact N2|exact D2].
+Qed.
+
+Definition mid_ok (e : envR) (c c' : Z) (part : envR) : Prop :=
+  (forall x, (0 < x < tofR (c' - c))%R -> curve part x = curve e (tofR c + x)%R) /\
+  (nojump e c -> curve part 0%R = curve e (tofR c)) /\
+  (nojump e c' -> curve part (tofR (c' - c)) = curve e (tofR c')).
+
+Definition last_ok (e : envR) (c : Z) (part : envR) : Prop :=
+  (forall x, (0 < x)%R -> curve part x = curve e (tofR c + x)%R) /\
+  (nojump e c -> curve part 0%R = curve e (tofR c)).
+
+Lemma mid_curve (A : envR) b B1 c1 C1' c c' : pwf (A ++ (b :: B1) ++ c1 :: C1') -> 0 <= c -> c < c' ->
+  pdur R A = c -> pdur R (b :: B1) = c' - c ->
+  fv 0 (A ++ (b :: B1) ++ c1 :: C1') c = Some (pv b) ->
+  fv 0 (A ++ (b :: B1) ++ c1 :: C1') c' = Some (pv c1) ->
+  mid_ok (A ++ (b :: B1) ++ c1 :: C1') c c' ((b :: B1) ++ [mkPt 0 (pv c1) 0%R]).
+Proof.
+  intros W H0 H1 EA EB V V'.
+  pose proof W as W'. apply pwf_app in W'. destruct W' as [WA W']. apply pwf_app in W'. destruct W' as [WB WC].
+  pose proof (tofR_nonneg c H0) as S0. pose proof (tofR_pos (c' - c) ltac:(lia)) as P.
+  set (L := mkPt 0 (pv c1) 0%R). repeat split.
+  - intros x [Hx1 Hx2].
+    rewrite curve_pos by exact Hx1. rewrite curve_pos by lra. rewrite <- EA.
+    change (A ++ (b :: B1) ++ c1 :: C1') with (A ++ b :: (B1 ++ c1 :: C1')).
+    rewrite cg_skip_shift; [|exact WA|lra].
+    change (curve_go 0 b (B1 ++ c1 :: C1') x) with (cg 0 ((b :: B1) ++ c1 :: C1') x).
+    apply cg_prefix; [discriminate|reflexivity|rewrite EB; lra].
+  - intros J. apply J in V. rewrite <- V. cbn [app]. apply curve_nonpos. lra.
+  - intros J. apply J in V'. rewrite <- V'. rewrite curve_pos by exact P.
+    rewrite cg_skip; [reflexivity|exact WB|rewrite EB; lra].
+Qed.
+
+Lemma last_curve (A R0 : envR) c : pwf (A ++ R0) -> 0 <= c -> R0 <> [] -> pdur R A = c ->
+  fv 0 (A ++ R0) c = Some (pv (hd (mkPt 0 0%R 0%R) R0)) ->
+  last_ok (A ++ R0) c R0.
+Proof.
+  intros W H0 Rn EA V. apply pwf_app in W. destruct W as [WA WR].
+  pose proof (tofR_nonneg c H0) as S0. destruct R0 as [|y Y]; [congruence|]. split.
+  - intros x Hx. rewrite curve_pos by exact Hx. rewrite curve_pos by lra. rewrite <- EA.
+    rewrite cg_skip_shift; [reflexivity|exact WA|lra].
+  - intros J. apply J in V. rewrite <- V. cbn [hd]. apply curve_nonpos. lra.
+Qed.
+
+(* ================================================================ 7. assembly *)
+Lemma cuts_asc sl : asc sl -> (forall t, In t sl -> 0 <= t) -> asc (cuts_of sl).
+Proof. unfold cuts_of. destruct (memZ 0 sl); [auto|]. simpl. split; auto. Qed.
+
+Lemma cuts_in (e1 : envR) sl : e1 <> [] -> (forall t, In t sl -> In t (pstarts R e1) /\ 0 <= t) ->
+  forall t, In t (cuts_of sl) -> In t (pstarts R e1) /\ 0 <= t.
+Proof.
+  unfold cuts_of. intros Ne H. destruct (memZ 0 sl); [exact H|].
+  intros t [Ht|Ht]; [|apply H; exact Ht]. subst t. split; [|lia].
+  destruct e1; [congruence|left; reflexivity].
+Qed.
+
+Lemma mid_ok_transfer (e e1 : envR) c c' part : (forall x, curve e1 x = curve e x) ->
+  (forall s, nojump e s -> nojump e1 s) -> mid_ok e1 c c' part -> mid_ok e c c' part.
+Proof.
+  intros EC HJ (M1 & M2 & M3). repeat split.
+  - intros x Hx. rewrite <- EC. apply M1. exact Hx.
+  - intros J. rewrite <- EC. apply M2, HJ, J.
+  - intros J. rewrite <- EC. apply M3, HJ, J.
+Qed.
+
+Lemma last_ok_transfer (e e1 : envR) c part : (forall x, curve e1 x = curve e x) ->
+  (forall s, nojump e s -> nojump e1 s) -> last_ok e1 c part -> last_ok e c part.
+Proof.
+  intros EC HJ (M1 & M2). split.
+  - intros x Hx. rewrite <- EC. apply M1. exact Hx.
+  - intros J. rewrite <- EC. apply M2, HJ, J.
+Qed.
+
+(* the point appended to the last part repeats the last value *)
+Lemma finish_last (A R0 : envR) c v vs : pwf (A ++ R0) -> R0 <> [] -> pdur R A = c -> 0 <= c ->
+  Forall (fun z => z < c) (pstarts_from R 0 A) ->
+  value_at R RNum (A ++ R0) (pdur R (A ++ R0)) = Ok v -> value_at R RNum R0 (pdur R R0) = Ok vs ->
+  vs <> v -> forall x, curve (R0 ++ [mkPt 0 v 0%R]) x = curve R0 x.
+Proof.
+  intros W Rn EA H0 SA Ev Evs Nv x.
+  rewrite value_at_curve' in Ev by (destruct A; [exact Rn|discriminate]).
+  rewrite value_at_curve' in Evs by exact Rn. inversion Ev as [Ev']. inversion Evs as [Evs']. clear Ev Evs.
+  pose proof W as W'. apply pwf_app in W'. destruct W' as [WA WR].
+  pose proof (pdur_nonneg _ WA). pose proof (pdur_nonneg _ WR).
+  destruct (Z.eq_dec (pdur R (A ++ R0)) 0) as [Z0|Z0].
+  - exfalso. rewrite pdur_app in Z0. assert (C0 : c = 0) by lia.
+    destruct A as [|a A]; [|simpl in SA; inversion SA as [|? ? S1 S2]; lia].
+    simpl app in *. congruence.
+  - destruct (exists_last Rn) as (R' & l & El). subst R0.
+    assert (Vl : v = pv l).
+    { rewrite <- Ev'. rewrite app_assoc. rewrite app_assoc in W.
+      pose proof W as W2. apply pwf_app in W2. destruct W2 as [W2 Wl]. apply pwf_cons in Wl. destruct Wl as [Wl _].
+      apply curve_after_last; [exact W2| |].
+      - apply tofR_le. rewrite (pdur_app (A ++ R') [l]). cbn [pdur]. lia.
+      - apply tofR_pos. pose proof (pdur_nonneg _ W) as PW. rewrite <- app_assoc in PW |- *. lia. }
+    rewrite <- app_assoc. cbn [app]. symmetry. apply curve_tail_const; [reflexivity|].
+    constructor; [cbn [pv]; congruence|constructor].
+Qed.
+
+Lemma env_split_unfold (e : envR) ts : ts <> [] -> env_split_at R RNum e ts false =
+  (let sl := sortZ ts in
+   if (pdur R e <? lastZ sl) && negb false then Err ESplitError else
+   e1 <- sample_all R RNum e sl ;
+   parts <- p_split R e1 sl false ;
+   parts1 <- add_ends R RNum parts ;
+   finish e1 parts1).
+Proof. destruct ts; [congruence|reflexivity]. Qed.
+
+(* STAGE 3c: with the cut times 0 :: sorted ts (0 not repeated), there are as many parts as cut times;
+   part k reproduces the original between cut k and cut k+1 (the last part from its cut on);
+   at the cut times themselves the parts carry the value of the FIRST control point there, which is
+   the value of the curve unless the envelope jumps at that time *)
+Theorem split_curve (e : envR) ts parts : pwf e -> env_split_at R RNum e ts false = Ok parts ->
+  let cuts := cuts_of (sortZ ts) in
+  length parts = length cuts /\
+  forall k c part, nth_error cuts k = Some c -> nth_error parts k = Some part ->
+    match nth_error cuts (S k) with
+    | Some c' => mid_ok e c c' part
+    | None => last_ok e c part
+    end.
+Proof.
+  intros W H.
+  assert (Nts : ts <> []) by (intros ->; discriminate).
+  rewrite env_split_unfold in H by exact Nts. cbv zeta in H. cbv zeta. set (sl := sortZ ts) in *.
+  destruct ((pdur R e <? lastZ sl) && negb false); [discriminate|].
+  destruct (sample_all R RNum e sl) as [e1|] eqn:E1; [|discriminate]. cbn [bind] in H.
+  destruct (sample_all_spec sl e e1 W E1) as (W1 & EC & Hin & HJ & _).
+  assert (Nsl : sl <> []) by (apply sortZ_nonnil; exact Nts).
+  assert (Ne1 : e1 <> []).
+  { destruct sl as [|t sl']; [congruence|]. destruct (Hin t (or_introl eq_refl)) as [I _]. intros ->. exact I. }
+  rewrite p_split_points in H; [|exact Ne1|exact Nsl|apply sortZ_asc|exact Hin]. cbn [bind] in H.
+  pose proof (cuts_in e1 sl Ne1 Hin) as Cin.
+  assert (Casc : asc (cuts_of sl)) by (apply cuts_asc; [apply sortZ_asc|intros t Ht; apply Hin; exact Ht]).
+  set (cuts := cuts_of sl) in *.
+  set (is := map (fun t => fidx t (pstarts R e1)) cuts ++ [length e1]) in *.
+  set (raw := slices e1 is) in *.
+  destruct (add_ends R RNum raw) as [parts1|] eqn:EA; [|discriminate]. cbn [bind] in H.
+  destruct (add_ends_spec raw parts1 EA) as [L1 N1]. destruct (finish_spec e1 parts1 parts H) as [L2 N2].
+  assert (Lis : length is = S (length cuts)) by (unfold is; rewrite app_length, map_length; simpl; lia).
+  assert (Lraw : length raw = length cuts).
+  { unfold raw, slices. rewrite map_length, pairs_length. lia. }
+  split; [lia|].
+  intros k c part Hc Hp.
+  assert (Kl : (k < length cuts)%nat) by (apply nth_error_Some; congruence).
+  destruct (Cin c (nth_error_In _ _ Hc)) as [Ic C0].
+  assert (Isk : nth_error is k = Some (fidx c (pstarts R e1))).
+  { unfold is. rewrite nth_error_app1 by (rewrite map_length; lia).
+    apply (map_nth_error (fun t => fidx t (pstarts R e1))). exact Hc. }
+  destruct (nth_error cuts (S k)) as [c'|] eqn:Hc'.
+  - (* a part between two cut times *)
+    assert (Kl' : (S k < length cuts)%nat) by (apply nth_error_Some; congruence).
+    destruct (Cin c' (nth_error_In _ _ Hc')) as [Ic' C0'].
+    assert (Hle : c <= c') by (apply (asc_nth cuts k); assumption).
+    assert (Isk' : nth_error is (S k) = Some (fidx c' (pstarts R e1))).
+    { unfold is. rewrite nth_error_app1 by (rewrite map_length; lia).
+      apply (map_nth_error (fun t => fidx t (pstarts R e1))). exact Hc'. }
+    assert (Rk : nth_error raw k = Some (lslice (fidx c (pstarts R e1)) (fidx c' (pstarts R e1)) e1)).
+    { exact (map_nth_error (fun '(i0, i1) => lslice i0 i1 e1) k (pairs is) (pairs_nth is k _ _ Isk Isk')). }
+    destruct (nth_error raw (S k)) as [nx|] eqn:Rk'; [|apply nth_error_None in Rk'; lia].
+    specialize (N1 k _ Rk). rewrite Rk' in N1. destruct N1 as (v & Ev & P1k).
+    destruct (N2 k _ P1k) as [N2a _]. rewrite N2a in Hp by lia. inversion Hp; subst part. clear Hp.
+    unfold raw, slices in Rk'. rewrite nth_error_map in Rk'.
+    destruct (nth_error (pairs is) (S k)) as [[a b]|] eqn:Ep; [|discriminate].
+    simpl in Rk'. inversion Rk'; subst nx. clear Rk'.
+    apply pairs_nth_inv in Ep. destruct Ep as [Ea Eb]. rewrite Isk' in Ea. inversion Ea; subst a. clear Ea.
+    apply value_at_0 in Ev. destruct Ev as (h & r & Enx & Evh). subst v.
+    apply (mid_ok_transfer e e1 c c' _ EC HJ).
+    destruct (Z.eq_dec c c') as [Eq|Neq].
+    + subst c'. rewrite lslice_same. cbn [app].
+      destruct (first_point e1 c W1 Ic) as (A & c1 & C1' & Ee & Ef & Ed & Vf & _).
+      assert (Eh : h = c1). { rewrite Ef in Enx. rewrite Ee in Enx. apply lslice_head in Enx. exact Enx. }
+      subst h. unfold mid_ok. rewrite Z.sub_diag, tofR_0. repeat split.
+      * intros x Hx. lra.
+      * intros J. apply J in Vf. rewrite <- Vf. rewrite curve_nonpos by lra. reflexivity.
+      * intros J. apply J in Vf. rewrite <- Vf. rewrite curve_nonpos by lra. reflexivity.
+    + destruct (part_mid e1 c c' W1 C0 ltac:(lia) Ic Ic')
+        as (A & b0 & B1 & c1 & C1' & Ee & Ef & Ef' & EdA & EdB & V & V').
+      assert (Eh : h = c1).
+      { rewrite Ef' in Enx. rewrite Ee in Enx. rewrite app_assoc in Enx. apply lslice_head in Enx. exact Enx. }
+      subst h.
+      assert (Esl : lslice (fidx c (pstarts R e1)) (fidx c' (pstarts R e1)) e1 = b0 :: B1).
+      { rewrite Ef, Ef', Ee. apply lslice_app. }
+      rewrite Esl. rewrite Ee in W1, V, V' |- *.
+      apply mid_curve; try assumption. lia.
+  - (* the last part *)
+    assert (Kl' : S k = length cuts) by (apply nth_error_None in Hc'; lia).
+    assert (Isk' : nth_error is (S k) = Some (length e1)).
+    { unfold is. rewrite nth_error_app2 by (rewrite map_length; lia). rewrite map_length.
+      replace (S k - length cuts)%nat with 0%nat by lia. reflexivity. }
+    assert (Rk : nth_error raw k = Some (lslice (fidx c (pstarts R e1)) (length e1) e1)).
+    { exact (map_nth_error (fun '(i0, i1) => lslice i0 i1 e1) k (pairs is) (pairs_nth is k _ _ Isk Isk')). }
+    assert (Rk' : nth_error raw (S k) = None) by (apply nth_error_None; lia).
+    specialize (N1 k _ Rk). rewrite Rk' in N1.
+    destruct (first_point e1 c W1 Ic) as (A & c1 & C1' & Ee & Ef & Ed & Vf & SA).
+    assert (Esl : lslice (fidx c (pstarts R e1)) (length e1) e1 = c1 :: C1').
+    { rewrite Ef. rewrite Ee. apply lslice_to_end. }
+    rewrite Esl in N1.
+    destruct (N2 k _ N1) as [_ N2b]. specialize (N2b ltac:(lia)).
+    apply (last_ok_transfer e e1 c _ EC HJ).
+    assert (LO : last_ok e1 c (c1 :: C1')).
+    { rewrite Ee in W1, Vf |- *. apply last_curve; try assumption. discriminate. }
+    destruct N2b as [Hf|(v & vs & Ev & Evs & Nv & Hf)]; rewrite Hf in Hp; inversion Hp; subst part.
+    + exact LO.
+    + assert (FL : forall x, curve ((c1 :: C1') ++ [mkPt 0 v 0%R]) x = curve (c1 :: C1') x).
+      { rewrite Ee in W1, Ev. apply (finish_last A (c1 :: C1') c v vs); try assumption. discriminate. }
+      destruct LO as [LO1 LO2]. split.
+      * intros x Hx. rewrite FL. apply LO1. exact Hx.
+      * intros J. rewrite FL. apply LO2. exact J.
+Qed.
+
+Print Assumptions split_curve.
